@@ -15,6 +15,7 @@ import (
 	"os"
 	"reflect"
 	"sort"
+	"time"
 	"testing"
 
 	"github.com/sirupsen/logrus"
@@ -112,6 +113,14 @@ func Symbolic() bool { return false }
 
 // Thorough reports whether the run is a thorough-tier run (VERIF_TIER=thorough).
 func Thorough() bool { return os.Getenv("VERIF_TIER") == "thorough" }
+
+// PacedClock states how the wall clock moves in this harness: two consecutive readings differ
+// by at most maxStepNs unless a Pause lies between them (natively: nothing to do, the code
+// between two readings takes far less).
+func PacedClock(maxStepNs int64) {}
+
+// Pause lets ns..2ns of wall time pass (natively: sleeps ns).
+func Pause(ns int64) { time.Sleep(time.Duration(ns)) }
 
 type assumeFailed struct{}
 
